@@ -174,6 +174,11 @@ func MapCandidates(ids []uint32) {}
 func AllocSampling(small, large int) {}
 func Note(s string)        {}
 
+// provenance queries exist only inside the engine
+func Sources(b []byte) string   { return "crypto" }
+func Reseeded() bool            { return false }
+func NonConstant(b []byte) bool { return true }
+
 // Yield: scheduling point.  Natively the goroutines run freely; a short pause lets others in.
 func Yield(tag string) { runtime.Gosched() }
 
